@@ -1,0 +1,25 @@
+//go:build verif
+
+package dragonboat
+
+// White-box access for the C01 verification harness: the numeric
+// RequestResultCode of a request result (the field is unexported). Compiled
+// only with -tags verif.
+
+// VerifC01ResultCode returns the numeric result code carried by r.
+func VerifC01ResultCode(r RequestResult) uint64 {
+	return uint64(r.code)
+}
+
+// VerifC01Codes returns the numeric values of the result codes the harness
+// needs when it classifies the errors of the Sync* API.
+func VerifC01Codes() map[string]uint64 {
+	return map[string]uint64{
+		"timeout":    uint64(requestTimeout),
+		"completed":  uint64(requestCompleted),
+		"terminated": uint64(requestTerminated),
+		"rejected":   uint64(requestRejected),
+		"dropped":    uint64(requestDropped),
+		"aborted":    uint64(requestAborted),
+	}
+}
